@@ -277,6 +277,7 @@ func concurrentProcess(run *ev.Run, g *sip.Gen, prop string, gmp, pi, quota int,
 		return "large"
 	}
 	done := 0
+	barrierFails := 0
 	var forgetQ [][]ccJudged
 	for round := 0; done < quota && run.Violations() <= 6; round++ {
 		if !proxy.Alive() || proxy.Crashed() {
@@ -332,6 +333,7 @@ func concurrentProcess(run *ev.Run, g *sip.Gen, prop string, gmp, pi, quota int,
 			senders = append(senders, sd)
 		}
 		drops0 := wire.UDPDrops()
+		keepAlive := round%2 == 0
 		gate := make(chan struct{})
 		var wg sync.WaitGroup
 		for _, sd := range senders {
@@ -340,6 +342,14 @@ func concurrentProcess(run *ev.Run, g *sip.Gen, prop string, gmp, pi, quota int,
 				defer wg.Done()
 				<-gate
 				dst := fmt.Sprintf("%s:%d", sd.li.ip, wire.UDPPort)
+				if keepAlive {
+					// clients behind NATs send CRLF CRLF keep-alives: no message, nothing to relay
+					if sd.conn != nil {
+						sd.conn.Send([]byte("\r\n\r\n"), "")
+					} else {
+						sd.ua.Send(dst, []byte("\r\n\r\n"), "")
+					}
+				}
 				for _, m := range sd.msgs {
 					if sd.conn != nil {
 						sd.conn.Send(m.raw, m.id)
@@ -360,7 +370,7 @@ func concurrentProcess(run *ev.Run, g *sip.Gen, prop string, gmp, pi, quota int,
 		okBarrier := true
 		for k, sd := range senders {
 			seen := false
-			for try := 0; try < 20 && !seen; try++ {
+			for try := 0; try < 8 && !seen; try++ {
 				bid := fmt.Sprintf("b%dr%dk%dt%d", pi, round, k, try)
 				if sd.conn != nil {
 					sd.conn.Send(sentinelMsg(bid, sd.ua.IP(), sd.ua.Port(), "tcp"), bid)
@@ -382,18 +392,28 @@ func concurrentProcess(run *ev.Run, g *sip.Gen, prop string, gmp, pi, quota int,
 			h.tcp.SlowRead(0, false)
 		}
 		if !okBarrier {
-			// a sentinel that does not come through within 30 s: the loops are stuck or the run is
-			// hopelessly overloaded; either way nothing can be concluded about absence here
-			for _, sd := range senders {
-				run.Inconclusive(int64(len(sd.msgs)))
-				done += len(sd.msgs)
-				if sd.conn != nil {
-					sd.conn.Close(false)
+			// a sentinel that does not come through: the loops are stuck, datagrams are being lost or
+			// the run is hopelessly overloaded. Nothing can be concluded about absence (C03); what did
+			// arrive can still be compared with what was sent (C01). After a few such rounds the
+			// process is given up.
+			barrierFails++
+			if prop == "C03" || barrierFails > 4 {
+				for _, sd := range senders {
+					run.Inconclusive(int64(len(sd.msgs)))
+					done += len(sd.msgs)
+					if sd.conn != nil {
+						sd.conn.Close(false)
+					}
 				}
+				if barrierFails > 4 {
+					run.Observe(fmt.Sprintf("given_up_after_barrier_failures_gomaxprocs_%d", gmp), barrierFails)
+					break
+				}
+				continue
 			}
-			continue
 		}
 		dropped := wire.UDPDrops() > drops0
+		roundDeadline := time.Now().Add(5 * time.Second)
 		conc := "2-3"
 		if nsend > 3 {
 			conc = "4-8"
@@ -404,8 +424,11 @@ func concurrentProcess(run *ev.Run, g *sip.Gen, prop string, gmp, pi, quota int,
 				*judged++
 				obs := net.ForCase(m.id)
 				if len(obs) == 0 {
-					net.WaitCase(m.id, func(o []*wire.Obs) bool { return len(o) >= 1 }, 5*time.Second)
-					obs = net.ForCase(m.id)
+					// (one watchdog for all the messages of a round that are still missing)
+					if left := time.Until(roundDeadline); left > 0 {
+						net.WaitCase(m.id, func(o []*wire.Obs) bool { return len(o) >= 1 }, left)
+						obs = net.ForCase(m.id)
+					}
 				}
 				detail := func(why string) map[string]any {
 					d := map[string]any{"why": why, "gomaxprocs": gmp, "round": round, "concurrent_senders": nsend, "slow_tcp_hops": slow, "receiving_listener": fmt.Sprintf("svc%d/l%d %s", m.li.svc, m.li.l, m.li.ip), "ingress": m.proto,
